@@ -6,8 +6,8 @@ ALL = ["C%02d" % i for i in range(1, 19)]
 
 # what was added to each check while independent seeded changes were evaluated (DESIGN 15.7): appended to the check's text
 EXTRA = {
- "C01": " Also run: real writer/reader threads under the deterministic scheduler (a writer that sleeps and is woken again), judged with this property's rules; abort-then-unmap (the source's idiom for an empty frame) as an operation.",
- "C02": " Also run: real writer/reader threads under the deterministic scheduler (a writer that sleeps and is woken again), judged with this property's rules.",
+ "C01": " Also run: real writer/reader threads under the deterministic scheduler (a writer that sleeps and is woken again), judged with this property's rules; abort-then-unmap (the source's idiom for an empty frame) as an operation. Refusals (accept_writes(0)) at any point, also between a write's map and unmap with a reader lagging behind a wrap (capacity 5); a stale `mapped` field left by a refused unmap is part of the explored state and of ChannelImpl's VIEW.",
+ "C02": " Also run: real writer/reader threads under the deterministic scheduler (a writer that sleeps and is woken again), judged with this property's rules. Refusals (accept_writes(0)) at any point, also between a write's map and unmap with a reader lagging behind a wrap (capacity 5); a stale `mapped` field left by a refused unmap is part of the explored state and of ChannelImpl's VIEW.",
  "C03": " On DRIFT (the code no longer follows ChannelConc step by step) the sequential exploration escalates at once to capacities 6 and 7, where a write can exceed a whole earlier lap.",
  "C04": " Families added: fullring (the consumer lags exactly one lap when the acquisition ends; software-triggered camera + scheduler exclusion window), exactly-filled rings, all eight sample types, type / shape changes between acquisitions, empty frame calls, write delay, the same scenario on stream 1 with stream 0 unconfigured; Pipeline.tla models the write delay and recorded executions with a delay are checked to be its behaviours.",
  "C05": " Also: sample-type changes at unchanged dimensions between acquisitions, cameras whose per-frame shape differs from get_shape at the same byte size, averaging family.",
